@@ -238,6 +238,26 @@ func shutConfigs() []shutCfg {
 			w.closerAfterRun()
 		}
 	})
+	add("stop-with-busy-sender", false, func(w *world) {
+		// the peer has queued 16 KB and keeps its connection open: Stop arrives while the loop is
+		// working through it (ET: chunk by chunk, re-queuing eventloop.read0 behind the shutdown
+		// signal). Only termination is judged: a bound on reads per loop iteration was tried as an
+		// oracle and dropped, because the unchanged engine drains re-queued reads within one task
+		// phase (15 reads in one iteration on the clean tree), see DESIGN 9.7 (seed C06-r2-3).
+		w.opts = append(w.opts, WithReadBufferCap(1024), WithEdgeTriggeredIOChunk(2048))
+		w.onTraffic = func(w *world, ci *connInfo) Action { _, _ = ci.c.Discard(-1); return None }
+		w.script = func(w *world) {
+			done := 0
+			w.peerThread("peer", &done, func(p *peer) {
+				if p.connect() {
+					p.send(make([]byte, 16*1024))
+					sched.BlockUntil(func() bool { return len(w.conns) > 0 && w.conns[0].traffics > 0 })
+				}
+			})
+			w.ctl(&done, 1, nil)
+			w.closerAfterRun()
+		}
+	})
 	add("stop-with-async-in-flight", true, func(w *world) {
 		w.script = func(w *world) {
 			done := 0
@@ -343,7 +363,40 @@ func shutConfigs() []shutCfg {
 }
 
 // shutdownCheck is the C06 monitor.
+// readsPerIteration returns the largest number of read(2) calls the framework made on one
+// descriptor between two consecutive epoll_wait calls of the same thread, and that descriptor.
+func readsPerIteration() (int, int) {
+	type key struct{ thread, fd int }
+	cur := map[key]int{}
+	best, bestFd := 0, -1
+	for _, e := range mcsys.L.Events {
+		if e.Who != "fw" {
+			continue
+		}
+		switch e.Op {
+		case "epoll_wait":
+			for k := range cur {
+				if k.thread == e.Thread {
+					delete(cur, k)
+				}
+			}
+		case "read":
+			k := key{e.Thread, e.Fd}
+			cur[k]++
+			if cur[k] > best {
+				best, bestFd = cur[k], e.Fd
+			}
+		}
+	}
+	return best, bestFd
+}
+
 func shutdownCheck(w *world, out *sched.Outcome) (string, string) {
+	if w.extra != nil {
+		if m, s := w.extra(w); m != "" {
+			return m, s
+		}
+	}
 	if !w.runDone {
 		return fmt.Sprintf("shutdown was requested but Run has not returned (end=%s after %d steps, blocked=%v)", out.End, out.Steps, out.Blocked), "shutdown:run-hangs"
 	}
